@@ -100,22 +100,25 @@ Print Assumptions C13_single_value_is_undefined.
 
 (* ---------------------------------------------------------------- counts (pure nat, any T) *)
 
-(* reported count = chains * draws, never less than requested, and no draw is superfluous *)
+(* reported count = chains * draws, never less than requested, and no draw is superfluous.
+   Guard 0 < chains: with zero chains (num_samples = 0 and num_chains = 0, or empty initial
+   chains) the code divides by zero, while the model's ceil_div is totalised (x / 0 = 0) *)
 Theorem C13_count_is_chains_times_draws :
   forall (T : Type) (O : NumOps T) (C : Type) (clen : C -> nat)
          (samp : nat -> nat -> nat -> option C -> C) (obs : C -> list T)
          (init : option C) (S nc burn steps : nat),
   let chains := chains_of clen init nc S in
   let draws := num_draws S chains in
+  0 < chains ->
   snd (statistics O clen samp obs init S nc burn steps) = chains * draws
-  /\ (0 < chains -> S <= snd (statistics O clen samp obs init S nc burn steps))
-  /\ (0 < chains -> 0 < S -> chains * (draws - 1) < S)
+  /\ S <= snd (statistics O clen samp obs init S nc burn steps)
+  /\ (0 < S -> chains * (draws - 1) < S)
   /\ length (trace clen samp init S nc burn steps) = draws.
 Proof.
-  intros T O C clen samp obs init S nc burn steps; cbv zeta; split; [|split; [|split]].
+  intros T O C clen samp obs init S nc burn steps; cbv zeta; intros Hc; split; [|split; [|split]].
   - exact (statistics_count O clen samp obs init S nc burn steps).
-  - exact (statistics_count_ge O clen samp obs init S nc burn steps).
-  - exact (ceil_div_minimal S (chains_of clen init nc S)).
+  - exact (statistics_count_ge O clen samp obs init S nc burn steps Hc).
+  - exact (ceil_div_minimal S (chains_of clen init nc S) Hc).
   - exact (trace_length clen samp init S nc burn steps).
 Qed.
 Print Assumptions C13_count_is_chains_times_draws.
@@ -142,13 +145,17 @@ Print Assumptions C13_chains_rule.
 (* the k arguments are [burn_in; steps; ...; steps]; every call asks for [chains] chains;
    the first call starts from the given initial chains (None: fresh random chains) and every
    later call starts from the states returned by the previous call; each recorded call is
-   what the sampler returned for exactly those arguments *)
+   what the sampler returned for exactly those arguments.
+   (Guard 0 < chains as above: with zero chains the code raises before any draw.) *)
+(* definitional: restates the model — burn-in once / continuity are how [draw_loop] is written;
+   the evidence that the real statistics() behaves so is the recorded sample() calls of the check *)
 Theorem C13_schedule :
   forall (C : Type) (clen : C -> nat) (samp : nat -> nat -> nat -> option C -> C)
          (init : option C) (S nc burn steps : nat),
   let chains := chains_of clen init nc S in
   let draws := num_draws S chains in
   let tr := trace clen samp init S nc burn steps in
+  0 < chains ->
   map (@c_k C) tr = k_schedule burn steps draws
   /\ (forall d, k_schedule burn steps (Datatypes.S d) = burn :: repeat steps d)
   /\ map (@c_n C) tr = repeat chains draws
@@ -158,7 +165,7 @@ Theorem C13_schedule :
                        c_init cl' = Some (c_ret cl))
   /\ genuine samp 0 tr.
 Proof.
-  intros C clen samp init S nc burn steps; cbv zeta.
+  intros C clen samp init S nc burn steps; cbv zeta; intros _.
   split; [exact (trace_k clen samp init S nc burn steps)|].
   split; [exact (k_schedule_shape burn steps)|].
   split; [exact (trace_n clen samp init S nc burn steps)|].
@@ -172,6 +179,7 @@ Print Assumptions C13_schedule.
 (* user-supplied chains: the first call gets the caller's own tensor only with overwrite
    (otherwise a clone); the caller's tensor is unchanged without overwrite and holds the
    chain states of the last draw with overwrite *)
+(* definitional: restates the model — the evidence is the check's comparison of the caller's tensor *)
 Theorem C13_initial_chains_cloned_unless_overwrite :
   forall (C : Type) (init : C) (tr : list (@call C)) (cl : @call C),
   first_init_kind true false = InitClone
@@ -189,14 +197,19 @@ Print Assumptions C13_initial_chains_cloned_unless_overwrite.
 (* ---------------------------------------------------------------- System.statistics *)
 
 (* every observable of a System gets exactly the dictionary it would get alone on the same
-   chain states (same sampler outcomes), for every number type, sampler, and schedule *)
+   chain states (same sampler outcomes), for every number type, sampler, and schedule
+   (guard 0 < chains: with zero chains both raise in the code) *)
 Theorem C13_system_equals_individual :
   forall (T : Type) (O : NumOps T) (C : Type) (clen : C -> nat)
          (samp : nat -> nat -> nat -> option C -> C) (obss : list (C -> list T))
          (init : option C) (S nc burn steps : nat),
+  0 < chains_of clen init nc S ->
   system_statistics O clen samp obss init S nc burn steps =
   map (fun obs => statistics O clen samp obs init S nc burn steps) obss.
-Proof. exact @system_equals_individual. Qed.
+Proof.
+  exact (fun T O C clen samp obss init S nc burn steps _ =>
+           system_equals_individual O clen samp obss init S nc burn steps).
+Qed.
 Print Assumptions C13_system_equals_individual.
 
 (* ---------------------------------------------------------------- non-vacuity *)
